@@ -342,6 +342,85 @@ fn is_bool_expr(e: &Expr) -> bool {
     }
 }
 
+/// the identifiers bound by patterns (let, match arms, if-let, closure parameters, for) in a function body, in source order
+fn collect_bindings(b: &syn::Block) -> Vec<String> {
+    struct B(Vec<String>);
+    impl<'ast> Visit<'ast> for B {
+        fn visit_pat_ident(&mut self, p: &'ast syn::PatIdent) {
+            self.0.push(p.ident.to_string());
+            visit::visit_pat_ident(self, p);
+        }
+        fn visit_item(&mut self, _: &'ast syn::Item) {}
+    }
+    let mut v = B(vec![]);
+    v.visit_block(b);
+    v.0
+}
+
+fn replace_word(text: &str, old: &str, new: &str) -> String {
+    let mut out = String::with_capacity(text.len());
+    let bytes = text.as_bytes();
+    let mut i = 0;
+    while i < text.len() {
+        if text[i..].starts_with(old) {
+            let before_ok = i == 0 || !(bytes[i - 1].is_ascii_alphanumeric() || bytes[i - 1] == b'_' || bytes[i - 1] == b'$');
+            let j = i + old.len();
+            let after_ok = j >= text.len() || !(bytes[j].is_ascii_alphanumeric() || bytes[j] == b'_');
+            // `x.name` is a field, `name(` after `::`/`.` a method: only a free-standing identifier is a local
+            let field = i > 0 && bytes[i - 1] == b'.';
+            if before_ok && after_ok && !field {
+                out.push_str(new);
+                i = j;
+                continue;
+            }
+        }
+        let ch = text[i..].chars().next().unwrap();
+        out.push(ch);
+        i += ch.len_utf8();
+    }
+    out
+}
+
+/// R25: the templates name locals of the repository's functions (in invariants, spliced ghost lines, statement anchors). When a function
+/// binds exactly as many names as it did when the templates were written and the only differences are consistent renamings to names that
+/// were not in use, the same renaming is applied to the template text of that body, so a renamed local is not a lost anchor.
+fn rename_map(old: &[String], new: &[String]) -> Option<Vec<(String, String)>> {
+    if old.len() != new.len() || old == new { return None; }
+    let mut map: BTreeMap<String, String> = BTreeMap::new();
+    for (o, n) in old.iter().zip(new.iter()) {
+        if o == n { continue; }
+        if old.contains(n) { return None; }              // not a pure renaming (e.g. two names swapped)
+        match map.get(o) { Some(prev) if prev != n => return None, _ => { map.insert(o.clone(), n.clone()); } }
+    }
+    // a name that is kept somewhere but renamed elsewhere would be ambiguous in free text
+    for (o, n) in old.iter().zip(new.iter()) { if o == n && map.contains_key(o) { return None; } }
+    Some(map.into_iter().collect())
+}
+
+fn rename_spec(spec: &BodySpec, map: &[(String, String)]) -> BodySpec {
+    let r = |t: &str| -> String { let mut x = t.to_string(); for (o, n) in map { x = replace_word(&x, o, n); } x };
+    let mut s = spec.clone();
+    for v in s.loops.values_mut() { *v = r(v); }
+    s.prologue = r(&s.prologue);
+    s.epilogue = r(&s.epilogue);
+    for e in s.after_let.iter_mut() { if !e.0.starts_with('=') { e.0 = r(&e.0); } e.3 = r(&e.3); }
+    for e in s.before_stmt.iter_mut() { e.0 = r(&e.0); e.2 = r(&e.2); }
+    for e in s.after_stmt.iter_mut() { e.0 = r(&e.0); e.2 = r(&e.2); }
+    for e in s.replace.iter_mut() { e.0 = r(&e.0); e.1 = r(&e.1); }
+    for v in s.closures.values_mut() { *v = r(v); }
+    for v in s.rules.call.values_mut() { *v = r(v); }
+    // a lock rule keyed by a local's name follows the local
+    let keys: Vec<String> = s.rules.lock.keys().cloned().collect();
+    for k in keys {
+        if let Some((_, n)) = map.iter().find(|(o, _)| *o == k) {
+            // (the key may also be a field name, e.g. `queue.core.lock()` next to a guard called `core`: keep the old key too)
+            if let Some(v) = s.rules.lock.get(&k).cloned() { s.rules.lock.entry(n.clone()).or_insert(v); }
+        }
+    }
+    for v in s.rules.lock.values_mut() { *v = r(v); }
+    s
+}
+
 fn norm_ws(s: &str) -> String {
     // line comments are not part of the code that is compared
     let mut t = String::new();
@@ -374,7 +453,7 @@ struct Rules {
     retain_shim: Option<String>,
 }
 
-#[derive(Default)]
+#[derive(Default, Clone)]
 struct BodySpec {
     file: String,
     func: String,
@@ -639,6 +718,25 @@ impl<'a> Rewriter<'a> {
             if is_loop && i + 1 < n {
                 if let Stmt::Expr(Expr::Block(_), _) = &block.stmts[i + 1] {
                     self.edits.push(Edit { start: se, end: se, text: ";".to_string(), prio: 1 });
+                }
+            }
+            // R26: the type annotation of a `let` with an initialiser is dropped: the templates re-declare std types as shims (guards are
+            // `&mut` borrows, `Mutex` is a shim, ...), so an annotation can name a type that does not exist here, and it is redundant
+            if let Stmt::Local(l) = st {
+                if let syn::Pat::Type(pt) = &l.pat {
+                    let (ts, te) = self.src.range(pt.ty.span());
+                    // (kept where inference needs it: no initialiser, or an initialiser whose type is chosen by the annotation)
+                    let chosen_by_annotation = match l.init.as_ref().map(|i| &*i.expr) {
+                        None => true,
+                        Some(Expr::MethodCall(m)) => matches!(m.method.to_string().as_str(), "collect" | "into" | "parse" | "sum" | "product" | "try_into"),
+                        Some(Expr::Call(c)) => matches!(&*c.func, Expr::Path(p) if p.path.segments.last().map(|s| s.ident == "default" || s.ident == "from" || s.ident == "new").unwrap_or(false)),
+                        _ => false,
+                    };
+                    if !chosen_by_annotation || self.src.text[ts..te].contains("MutexGuard") {
+                        let (_, pe) = self.src.range(pt.pat.span());
+                        self.edits.push(Edit { start: pe, end: te, text: String::new(), prio: 0 });
+                        self.notes.push(format!("R26 type annotation of a `let` dropped at {}:{}", self.src.rel, self.src.line_of(ts)));
+                    }
                 }
             }
             // AFTER-LET
@@ -959,6 +1057,14 @@ impl<'a, 'ast> Visit<'ast> for Rewriter<'a> {
                     )),
                 }
             }
+            Expr::Async(a) => {
+                // R24: an `async` block that is not the one being lifted is a value: nothing inside it runs when the enclosing function
+                // runs (it runs when, and if, it is polled), so for the function's contract it is an opaque future
+                let (s0, e0) = self.src.range(a.span());
+                self.edit(s0, e0, "opaque_async_value()".to_string(), 0);
+                self.notes.push(format!("R24 async block at {}:{} is an opaque value (its body does not run at call time)", self.src.rel, self.src.line_of(s0)));
+                return;
+            }
             Expr::Await(a) => {
                 // R10: `e.await` -> `await_shim(e)`
                 let (bs, _) = self.src.range(a.base.span());
@@ -1187,6 +1293,10 @@ fn main() {
                 dropscan(&repo, &args[i + 1..]);
                 return;
             }
+            "--bindscan" => {
+                bindscan(&repo, &args[i + 1..]);
+                return;
+            }
             "--fnscan" => {
                 fnscan(&repo, &args[i + 1..]);
                 return;
@@ -1204,6 +1314,11 @@ fn main() {
     }
     let tmpl_text = std::fs::read_to_string(&tmpl).unwrap_or_else(|e| die(&format!("cannot read template {}: {}", tmpl, e)));
     let lines: Vec<&str> = tmpl_text.lines().collect();
+    // R25: names bound by every function under contract when the templates were written (`func\tn1 n2 ...` per line; specs/bindings.txt)
+    let pinned_bindings: BTreeMap<String, Vec<String>> = std::env::var("VEXTRACT_BINDINGS").ok().and_then(|p| std::fs::read_to_string(p).ok())
+        .map(|t| t.lines().filter_map(|l| { let mut it = l.splitn(2, '\t'); let f = it.next()?.to_string(); let ns = it.next().unwrap_or("").split_whitespace().map(|x| x.to_string()).collect(); Some((f, ns)) }).collect())
+        .unwrap_or_default();
+    let mut bindings_out: Vec<String> = vec![];
     // last path segment of every function under contract in this unit (R19 never inlines these)
     let contract_names: std::collections::BTreeSet<String> = lines.iter().filter_map(|l| l.trim().strip_prefix("//@BODY ")).filter_map(|r| parse_kv(r).get("fn").cloned())
         .map(|f| f.rsplit("::").next().unwrap_or("").to_string()).collect();
@@ -1470,6 +1585,17 @@ fn main() {
                 die(&format!("anchor lost: {} matches {} functions named `{}`", spec.file, found.len(), spec.func));
             }
             let f = &found[0];
+            // R25: consistent renaming of locals -> the same renaming of the template text of this body
+            let now_bound = collect_bindings(f.block);
+            let bkey = format!("{}::{}", spec.file, spec.func);
+            if !bindings_out.iter().any(|l: &String| l.starts_with(&format!("{}\t", bkey))) { bindings_out.push(format!("{}\t{}", bkey, now_bound.join(" "))); }
+            let spec: BodySpec = match pinned_bindings.get(&bkey).and_then(|old| rename_map(old, &now_bound)) {
+                Some(map) => {
+                    notes.push(format!("R25 locals of {} renamed consistently ({}): the template text of this body is renamed with them", spec.func, map.iter().map(|(o, n)| format!("{}->{}", o, n)).collect::<Vec<_>>().join(", ")));
+                    rename_spec(&spec, &map)
+                }
+                None => spec.clone(),
+            };
             // signature check: parameter names in order
             if let Some(want) = &spec.params {
                 let mut have = vec![];
@@ -1678,6 +1804,11 @@ fn main() {
         if i > 0 { j.push(','); }
         let _ = write!(j, "\"{}\"", b.replace('\\', "\\\\").replace('"', "\\\""));
     }
+    j.push_str("],\n \"bindings\": [");
+    for (i, b) in bindings_out.iter().enumerate() {
+        if i > 0 { j.push(','); }
+        let _ = write!(j, "\"{}\"", b.replace('\\', "\\\\").replace('"', "\\\"").replace('\t', "\\t"));
+    }
     j.push_str("],\n \"shapes\": [");
     for (i, b) in shapes.iter().enumerate() {
         if i > 0 { j.push(','); }
@@ -1845,6 +1976,30 @@ fn unsafescan(repo: &str, files: &[String]) {
         let mut v = V { src: &src, fns: vec![], pres: vec![], blocks: vec![], calls: vec![], closure_depth: 0, closure_call: vec![], let_closure: None };
         v.visit_file(&src.ast);
     }
+}
+
+/// --bindscan file...: `file::Qualified::name \t bound names` of every function (the key format of specs/bindings.txt)
+fn bindscan(repo: &str, files: &[String]) {
+    fn walk(src: &SourceFile, items: &[syn::Item]) {
+        for it in items {
+            match it {
+                syn::Item::Fn(f) => println!("{}::{}\t{}", src.rel, f.sig.ident, collect_bindings(&f.block).join(" ")),
+                syn::Item::Impl(im) => {
+                    let ty = type_last_ident(&im.self_ty).unwrap_or_default();
+                    let tr = im.trait_.as_ref().and_then(|(_, p, _)| p.segments.last().map(|s| s.ident.to_string()));
+                    for ii in &im.items {
+                        if let syn::ImplItem::Fn(f) = ii {
+                            let q = match &tr { Some(t) => format!("{} for {}::{}", t, ty, f.sig.ident), None => format!("{}::{}", ty, f.sig.ident) };
+                            println!("{}::{}\t{}", src.rel, q, collect_bindings(&f.block).join(" "));
+                        }
+                    }
+                }
+                syn::Item::Mod(m) => { if let Some((_, items)) = &m.content { if !m.attrs.iter().any(|a| a.path().is_ident("cfg")) { walk(src, items); } } }
+                _ => {}
+            }
+        }
+    }
+    for f in files { let src = SourceFile::load(repo, f); walk(&src, &src.ast.items); }
 }
 
 /// --fnscan file...: every function (free, inherent or trait-impl method; not inside cfg'd modules) with a fingerprint of its text
